@@ -14070,10 +14070,61 @@ func (l *Lowerer) isTextureFunction(name string) bool {
 	return false
 }
 
+// textureCallMinArgs is the smallest argument count of each texture builtin
+// (for a non-arrayed texture); the per-builtin lowering functions index into the
+// argument list up to that count.
+var textureCallMinArgs = map[string]int{
+	"textureSample":                3,
+	"textureSampleBias":            4,
+	"textureSampleLevel":           4,
+	"textureSampleGrad":            5,
+	"textureSampleCompare":         4,
+	"textureSampleCompareLevel":    4,
+	"textureSampleBaseClampToEdge": 3,
+	"textureGather":                3,
+	"textureGatherCompare":         4,
+	"textureLoad":                  2,
+	"textureStore":                 3,
+	"textureAtomicMin":             3,
+	"textureAtomicMax":             3,
+	"textureAtomicAdd":             3,
+	"textureAtomicAnd":             3,
+	"textureAtomicOr":              3,
+	"textureAtomicXor":             3,
+}
+
+// textureCallTakesArrayIndex lists the builtins that take an additional
+// array_index argument when the texture is arrayed.
+var textureCallTakesArrayIndex = map[string]bool{
+	"textureSample":             true,
+	"textureSampleBias":         true,
+	"textureSampleLevel":        true,
+	"textureSampleGrad":         true,
+	"textureSampleCompare":      true,
+	"textureSampleCompareLevel": true,
+	"textureGatherCompare":      true,
+	"textureLoad":               true,
+	"textureStore":              true,
+	"textureAtomicMin":          true,
+	"textureAtomicMax":          true,
+	"textureAtomicAdd":          true,
+	"textureAtomicAnd":          true,
+	"textureAtomicOr":           true,
+	"textureAtomicXor":          true,
+}
+
 // lowerTextureCall converts a texture function call to IR.
 func (l *Lowerer) lowerTextureCall(name string, args []parser.Expr, target *[]ir.Statement) (ir.ExpressionHandle, error) {
 	if len(args) < 1 {
 		return 0, fmt.Errorf("%s requires at least 1 argument", name)
+	}
+	if minArgs, ok := textureCallMinArgs[name]; ok {
+		if l.isTextureArrayed(args[0]) && textureCallTakesArrayIndex[name] {
+			minArgs++
+		}
+		if len(args) < minArgs {
+			return 0, fmt.Errorf("%s requires at least %d arguments, got %d", name, minArgs, len(args))
+		}
 	}
 
 	switch name {
